@@ -1114,3 +1114,41 @@ def rule_GC6(F, R):
             R.ok("GC6", "rejection only after the remote was fetched", where(b, sp=st["sp"]))
         else:
             R.violation("GC6", b["owner_fn"], "rejection-from-cached-latest", "add_version can answer ExpectedParentVersion from the cached latest version without fetching the remote: a version whose parent is the remote's true latest is refused, and the id named is stale", where(b, sp=st["sp"]))
+
+
+def rule_GS2(F, R):
+    R.begin("GS2", "git backend: what is written was sealed with the key in force at the time of writing. In every Server method, no metadata reload (which may replace the key when the remote carries another salt) lies between sealing a value and writing it to the working tree")
+    ms = impl_methods(F)
+    reloaders = set()
+    for p, b in F.bodies.items():
+        if "gitsync" in p and b["kind"] == "AssocFn" and (b.get("sig_in") or [""])[0].startswith("&mut ") and F.owner(p) == p:
+            if any(st["k"] == "assign" and [e for e in st["l"]["p"] if isinstance(e, dict) and e.get("n") == "cryptor"] for bl in b["blocks"] for st in bl["s"]):
+                reloaders.add(roles.norm(p))
+    if not reloaders:
+        R.missing("GS2", "the git function that replaces the cryptor")
+        return
+    SINK = re.compile(r"^std::fs::write$|^serde_json::(ser::)?to_writer|std::io::Write::write_all$")
+    n = 0
+    for (be, name), b in sorted(ms.items()):
+        if be != "git":
+            continue
+        c = cfg_of(b)
+        fl = flow_of(b)
+        seals = [(i, t) for (i, t) in c.calls() if any(x.endswith("Cryptor::seal") for x in call_names(t))]
+        rl = [i for (i, t) in c.calls() if any(_cone_has(F, x, reloaders) for x in call_names(t))]
+        sinks = [(i, t) for (i, t) in c.calls() if any(SINK.search(x) for x in call_names(t))]
+        for (si, stt) in seals:
+            n += 1
+            bad = None
+            for (ki, kt) in sinks:
+                derived = any(fl.slice_operand(a).calls.get(si) is not None for a in kt["args"] if ("c" in a or "m" in a))
+                if not derived:
+                    continue
+                for r in rl:
+                    if r in c.reachable_after(si) and ki in c.reachable_after(r):
+                        bad = (r, ki)
+            if bad:
+                R.violation("GS2", b["owner_fn"], "sealed-before-key-reload", "%s seals a value at %s, then reloads the metadata at %s (which re-derives the key when the remote's salt differs) and writes the value sealed under the old key at %s: nobody holding the stored salt can open it" % (name, loc(stt["sp"]), loc(c.term(bad[0])["sp"]), loc(c.term(bad[1])["sp"])), where(b, si))
+            else:
+                R.ok("GS2", "%s: nothing reloads the key between sealing and writing" % name, where(b, si))
+    R.floor("GS2", "seal sites directly in the git backend's Server methods", n, 1)
